@@ -76,6 +76,22 @@ def run(tier, replay=None):
         if xrecs:
             judge(xids, xrecs, xnotes, "c17x")
             samples.append({"id": xids[-1], "lines": len(xrecs[-1]['lst'])})
+        # the hexasm EXECUTABLE: listing against the binary it writes to a regular file and down a pipe (a stream without a position)
+        rng = vlib.rng(1717)
+        ecases = asmlib.corpus_cases(d, tdir) + asmlib.random_cases(rng, 12 if tier == "quick" else 300)
+        nexe = 0
+        for target in ('file', 'pipe'):
+            er = asmlib.hexasm_exe_records(d, tdir, ecases, target)
+            eids, erecs, enotes = [], [], []
+            for cid, rec, note in er:
+                if rec is None:
+                    chk.violation("hexasm-instrs-failed:" + cid, note)
+                    continue
+                erecs.append(rec); eids.append(cid); enotes.append(note)
+            if erecs:
+                judge(eids, erecs, enotes, "c17e" + target); nexe += len(erecs)
+        chk.set("executable_listings", nexe)
+        chk.vacuity(nexe < 20, "too few executable-level listings")
         if not st["canary"]:
             raise vlib.MachineryError("no record to build the canary from")
         ok, nlines = st["ok"], st["nlines"]
